@@ -14,34 +14,62 @@
    Statements about "the configured tests / steps" are made about the
    configuration the accepted text defines (C08: [text_conforms] and the value
    of ${regress}, of regress-<test>-parallel, of parallel, the canvas step list). *)
-From Robsd Require Import Conf.ConfSpec Conf.ConfTrack Conf.SchedDefs Conf.SchedSpec Conf.ConfTie Conf.SchedProofs Conf.SchedTrack.
+From Robsd Require Import Conf.ConfSpec Conf.ConfTrack Conf.SchedDefs Conf.SchedSpec Conf.ConfTie Conf.SchedProofs Conf.SchedTrack
+  Conf.SchedPure Conf.SchedNames Conf.SchedShadow Conf.SchedOracle.
+From Robsd Require Import Exec.ArgvSpec Exec.SchedBridge Exec.SchedListed.
 From RobsdGen Require Import Gen_Conf.
 From Coq Require Import String.
 Local Open Scope N_scope.
 
 (* ------------------------------------------------------------------ numbering *)
-(* the lines of a listing carry the consecutive numbers i, i+1, ... *)
-Theorem C10_numbering : forall i steps,
-  list_lines i steps = flat_map (fun js => list_line (fst js) (snd js)) (combine (seq i (List.length steps)) steps).
-Proof. exact list_lines_numbering. Qed.
-Print Assumptions C10_numbering.
+(* robsd-step -L on an accepted configuration that has a schedule prints its steps numbered 1, 2, ... N with
+   N >= 1, the last one being end.  (The unfolding lemma list_lines_numbering and the case split on an empty
+   list of the earlier C10_numbering / C10_numbering_from_one are lemmas of SchedProofs.v now.) *)
+Theorem C10_listing_numbered_from_one : forall E m text c steps c1,
+  config_parse E (tables_of m) text = Accepted c ->
+  get_steps E (tables_of m) (after_parse (tables_of m) c) false = (c1, Some steps) ->
+  list_cmd E (tables_of m) text None = L_ok (list_lines 1 steps)
+  /\ list_lines 1 steps = flat_map (fun js => list_line (fst js) (snd js)) (combine (seq 1 (List.length steps)) steps)
+  /\ steps <> [] /\ last (names steps) [] = str_end.
+Proof. exact list_cmd_full_nonempty. Qed.
+Print Assumptions C10_listing_numbered_from_one.
 
-(* without -o the listing starts at 1 *)
-Theorem C10_numbering_from_one : forall E T text c steps c1,
-  config_parse E T text = Accepted c -> get_steps E T (after_parse T c) false = (c1, Some steps) ->
-  list_cmd E T text None = match steps with [] => L_offset_too_large | _ => L_ok (list_lines 1 steps) end.
-Proof. exact list_cmd_full. Qed.
-Print Assumptions C10_numbering_from_one.
+(* when does an accepted configuration have a schedule: exactly when every command of it renders in the
+   environment of the parsed configuration (robsd-regress: if; the only-if is refuted by the rdomain counter,
+   see C10_one_runner_rdomain_refuted) *)
+Theorem C10_listing_exists_iff : forall E m text c,
+  config_parse E (tables_of m) text = Accepted c -> m <> ROBSD_REGRESS ->
+  let c' := after_parse (tables_of m) c in
+  ((exists steps, snd (get_steps E (tables_of m) c' false) = Some steps) <->
+   schedule_ok (benv E m c' false) (bsteps E m c' false)).
+Proof. exact listing_exists_iff. Qed.
+Print Assumptions C10_listing_exists_iff.
+
+Theorem C10_listing_exists_partial : forall E m text c,
+  config_parse E (tables_of m) text = Accepted c ->
+  let c' := after_parse (tables_of m) c in
+  schedule_ok (benv E m c' false) (bsteps E m c' false) ->
+  exists steps, snd (get_steps E (tables_of m) c' false) = Some steps.
+Proof. exact listing_exists_partial. Qed.
+Print Assumptions C10_listing_exists_partial.
 
 (* ------------------------------------------------------------------ offsets *)
-(* -o k, 1 <= k <= N: exactly the steps from the k-th on, numbered from k; beyond N: "offset too large" *)
-Theorem C10_offset_suffix : forall E T text c steps c1 (k : nat) kb,
+(* -o k as it is given on the command line (k in decimal), 1 <= k <= N: exactly the steps from the k-th on,
+   numbered from k; N < k <= INT_MAX - N + 1 included - : "offset too large", nothing listed *)
+Theorem C10_offset_all : forall E T text c steps c1 (k : nat),
   config_parse E T text = Accepted c -> get_steps E T (after_parse T c) false = (c1, Some steps) ->
-  strtonum 1 int_max kb = NumOk (Z.of_nat k) -> (1 <= k)%nat ->
-  list_cmd E T text (Some kb) =
+  (1 <= k)%nat -> (Z.of_nat k <= int_max)%Z ->
+  list_cmd E T text (Some (render_Z (Z.of_nat k))) =
     if (List.length steps <? k)%nat then L_offset_too_large else L_ok (list_lines k (skipn (k - 1) steps)).
-Proof. exact list_cmd_offset. Qed.
-Print Assumptions C10_offset_suffix.
+Proof. exact list_cmd_offset_decimal. Qed.
+Print Assumptions C10_offset_all.
+
+(* 0, negative numbers and numbers beyond INT_MAX are refused before the configuration is read *)
+Theorem C10_offset_out_of_range : forall E T text (z : Z),
+  (z < 1 \/ int_max < z)%Z ->
+  list_cmd E T text (Some (render_Z z)) = L_offset_invalid (if (z <? 1)%Z then NumTooSmall else NumTooLarge).
+Proof. exact list_cmd_offset_out_of_range. Qed.
+Print Assumptions C10_offset_out_of_range.
 
 (* and that text is what remains of the full listing after its first k-1 lines *)
 Theorem C10_offset_is_suffix_of_full : forall k steps,
@@ -64,15 +92,21 @@ Theorem C10_listing_is_schedule : forall E T c tr c1 l,
 Proof. exact get_steps_names. Qed.
 Print Assumptions C10_listing_is_schedule.
 
-(* robsd, robsd-cross, robsd-ports: the documented steps in documented order, nothing else, end last, none parallel *)
-Theorem C10_fixed_steps : forall E m c,
+(* robsd, robsd-cross, robsd-ports: the listing of an accepted configuration is the documented list in
+   documented order (robsd lists env a second time after reboot), nothing else, none parallel *)
+Theorem C10_fixed_steps : forall E m text c steps c1,
   m = ROBSD \/ m = ROBSD_CROSS \/ m = ROBSD_PORTS ->
-  let ns := names (snd (raw_steps E (tables_of m) c)) in
-  subseq (doc_steps m) ns /\ Forall (fun n => In n (doc_steps m)) ns /\ last ns [] = [101; 110; 100].
-Proof. exact fixed_steps_static. Qed.
+  config_parse E (tables_of m) text = Accepted c ->
+  get_steps E (tables_of m) (after_parse (tables_of m) c) false = (c1, Some steps) ->
+  names steps = step_names (t_steps (tables_of m))
+  /\ Forall (fun s => ss_par s = false) steps
+  /\ subseq (doc_steps m) (names steps) /\ Forall (fun n => In n (doc_steps m)) (names steps)
+  /\ dedup [] (names steps) = doc_steps m.
+Proof. exact listed_fixed_steps. Qed.
 Print Assumptions C10_fixed_steps.
 
-(* robsd-regress: documented steps in order around the configured tests, end last *)
+(* robsd-regress: documented steps in order around the configured tests, end last - for whatever the
+   configuration holds *)
 Theorem C10_fixed_steps_regress : forall E c,
   subseq (doc_steps ROBSD_REGRESS) (names (snd (raw_steps E TRg c)))
   /\ last (names (snd (raw_steps E TRg c))) [] = [101; 110; 100].
@@ -109,14 +143,6 @@ Theorem C10_is_parallel : forall E c n, is_parallel E TRg c n = (c, par_of c n).
 Proof. exact is_parallel_regress. Qed.
 Print Assumptions C10_is_parallel.
 
-(* canvas: the configured steps in configuration order with their flags, then end *)
-Theorem C10_canvas_order : forall E c,
-  snd (raw_steps E (tables_of CANVAS) (after_parse (tables_of CANVAS) c)) =
-  map (fun s => mk_sstep (cs_name s) (cs_command s) (cs_parallel s)) (c_steps c)
-  ++ [mk_sstep [101; 110; 100] (script_argv (tables_of CANVAS) (fst (t_canvas_end (tables_of CANVAS))) [101; 110; 100]) false].
-Proof. exact raw_canvas. Qed.
-Print Assumptions C10_canvas_order.
-
 (* ------------------------------------------------------------------ in terms of the accepted text *)
 (* [es] are the entries the accepted text spells (C08_accept_iff_conforms: text_conforms = the text lexes
    into their spelling and [run_entries] defines the configuration).  Then
@@ -146,17 +172,151 @@ Proof. exact canvas_schedule_of_entries. Qed.
 Print Assumptions C10_canvas_schedule_of_entries.
 
 (* ------------------------------------------------------------------ resolvable *)
-(* every listed name is found by the step runner, in the same schedule *)
-Theorem C10_listed_resolvable : forall E T text c c1 steps s,
-  config_parse E T text = Accepted c -> get_steps E T (after_parse T c) false = (c1, Some steps) ->
-  In s steps -> nonul (ss_name s) ->
-  exists s', resolve E T text false (ss_name s) = Some (ss_cmd s') /\ ss_name s' = ss_name s /\ In s' steps.
-Proof. exact listed_resolvable. Qed.
+(* every listed name is found by the step runner.  No hypothesis on the name is left (names of a parsed
+   configuration hold no NUL: SchedNames.listed_names_nonul).  What the runner finds is the FIRST step of that
+   name - position j <= i - and its command is what gets executed. *)
+Theorem C10_listed_resolvable : forall E m text c c1 steps i s,
+  config_parse E (tables_of m) text = Accepted c ->
+  get_steps E (tables_of m) (after_parse (tables_of m) c) false = (c1, Some steps) ->
+  nth_error steps i = Some s ->
+  exists j s', (j <= i)%nat /\ nth_error steps j = Some s' /\ ss_name s' = ss_name s /\
+    (forall k x, (k < j)%nat -> nth_error steps k = Some x -> ss_name x <> ss_name s) /\
+    SchedDefs.resolve E (tables_of m) text false (ss_name s) = Some (ss_cmd s').
+Proof. exact listed_resolves. Qed.
 Print Assumptions C10_listed_resolvable.
+
+(* FULL statement of "the schedule agrees with what can be executed": every listed POSITION is executed when
+   the runner is given its name.  It holds when the names are pairwise different ... *)
+Theorem C10_listed_resolves_to_itself_partial : forall E m text c c1 steps i s,
+  config_parse E (tables_of m) text = Accepted c ->
+  get_steps E (tables_of m) (after_parse (tables_of m) c) false = (c1, Some steps) ->
+  NoDup (names steps) -> nth_error steps i = Some s ->
+  SchedDefs.resolve E (tables_of m) text false (ss_name s) = Some (ss_cmd s).
+Proof. exact listed_resolves_to_itself_nodup. Qed.
+Print Assumptions C10_listed_resolves_to_itself_partial.
+
+(* ... and exactly then: a step whose name already occurred earlier is reached by no argument of the runner *)
+Theorem C10_shadowed_step_unreachable : forall E m text c c1 steps i j s s',
+  config_parse E (tables_of m) text = Accepted c ->
+  get_steps E (tables_of m) (after_parse (tables_of m) c) false = (c1, Some steps) ->
+  (j < i)%nat -> nth_error steps i = Some s -> nth_error steps j = Some s' -> ss_name s' = ss_name s ->
+  (forall k, (k < i)%nat -> nth_error steps k <> Some s) ->
+  forall n, SchedDefs.find_step steps n <> Some s.
+Proof. exact shadowed_step_unreachable. Qed.
+Print Assumptions C10_shadowed_step_unreachable.
+
+(* REFUTED in general (replayed on robsd-step -L / robsd-exec, findings/C10_name_collisions.md): the
+   configuration is accepted, both steps are listed, the runner executes the earlier one for either.
+   regress "umount": step 9 (the fixed step that unmounts) can never be executed, the test runs instead *)
+Theorem C10_listed_resolves_to_itself_refuted :
+  list_cmd sched_wit_env TRg shadow_regress_text None =
+  L_ok (bs "1 env
+2 pkg-add
+3 cvs
+4 patch
+5 obj
+6 mount
+7 umount parallel
+8 bin/ls parallel
+9 umount
+10 revert
+11 pkg-del
+12 dmesg
+13 end
+")
+  /\ SchedDefs.resolve sched_wit_env TRg shadow_regress_text false (bs "umount")
+     = Some [bs "sh"; bs "-eu"; bs "/x/robsd-regress-exec.sh"; bs "umount"]
+  /\ exists c1 steps s9, get_steps sched_wit_env TRg (after_parse TRg (cfg_of (config_parse sched_wit_env TRg shadow_regress_text))) false = (c1, Some steps)
+       /\ nth_error steps 8 = Some s9 /\ ss_name s9 = bs "umount"
+       /\ ss_cmd s9 = [bs "sh"; bs "-eu"; bs "/x/robsd-regress-umount.sh"; bs "umount"]
+       /\ forall n, SchedDefs.find_step steps n <> Some s9.
+Proof. exact shadow_regress_umount. Qed.
+Print Assumptions C10_listed_resolves_to_itself_refuted.
+
+(* canvas: a name used twice, and a configured step called end *)
+Theorem C10_listed_resolves_to_itself_refuted_canvas :
+  list_cmd sched_wit_env (tables_of CANVAS) shadow_canvas_text None = L_ok (bs "1 a
+2 a
+3 end
+4 end
+")
+  /\ SchedDefs.resolve sched_wit_env (tables_of CANVAS) shadow_canvas_text false (bs "a") = Some [bs "echo"; bs "first"]
+  /\ SchedDefs.resolve sched_wit_env (tables_of CANVAS) shadow_canvas_text false (bs "end") = Some [bs "echo"; bs "mine"].
+Proof. exact shadow_canvas. Qed.
+Print Assumptions C10_listed_resolves_to_itself_refuted_canvas.
+
+(* the line format of the listing does not determine the schedule when a name holds a blank: a test
+   "a parallel" that does not run in parallel and a test "a" that does print the same bytes; what the
+   orchestrator reads back from the line (name a / flag parallel) is not a step of the first configuration *)
+Theorem C10_listing_format_refuted :
+  list_cmd sched_wit_env TRg ambiguous_text_1 None = list_cmd sched_wit_env TRg ambiguous_text_2 None
+  /\ (exists out, list_cmd sched_wit_env TRg ambiguous_text_1 None = L_ok out)
+  /\ SchedDefs.resolve sched_wit_env TRg ambiguous_text_1 false (bs "a") = None
+  /\ SchedDefs.resolve sched_wit_env TRg ambiguous_text_2 false (bs "a parallel") = None.
+Proof. exact listing_ambiguous. Qed.
+Print Assumptions C10_listing_format_refuted.
+
+(* ------------------------------------------------------------------ one runner *)
+(* C06 models robsd-exec on an abstract configuration view, C10 on the configuration text.  They are the same
+   runner: the schedule of C06 is the schedule of C10 ... *)
+Theorem C10_mode_schedule_is_raw_steps : forall E m c,
+  sched_pairs (mode_schedule (emode_of m) (regress_cfg c) (canvas_cfg c))
+  = sstep_pairs (snd (raw_steps E (tables_of m) (after_parse (tables_of m) c))).
+Proof. exact mode_schedule_raw. Qed.
+Print Assumptions C10_mode_schedule_is_raw_steps.
+
+(* ... and resolving a name against the configuration text is C06's find_step / config_get_steps code
+   ([resolve_env] = the body of ArgvDefs.resolve) on the environment and schedule of the parsed configuration.
+   Lookups made while the schedule is computed change the configuration (computed defaults are cached, the
+   rdomain counter moves); SchedPure.v proves that only the rdomain counter can be observed.  Guard for
+   robsd-regress: the schedule renders without ${rdomain}. *)
+Theorem C10_one_runner : forall E m text c tr name argv,
+  config_parse E (tables_of m) text = Accepted c ->
+  let c' := after_parse (tables_of m) c in
+  (schedule_ok (benv E m c' tr) (bsteps E m c' tr) \/ m <> ROBSD_REGRESS) ->
+  (SchedDefs.resolve E (tables_of m) text tr name = Some argv <-> resolve_env true (benv E m c' tr) (bsteps E m c' tr) name = RArgv argv).
+Proof. exact bridge_resolve. Qed.
+Print Assumptions C10_one_runner.
+
+(* robsd, robsd-cross, robsd-ports, canvas: literally ArgvDefs.resolve on the configuration view [view_of]
+   (Coq-defined; the harness compares the view it builds by hand with the parsed configuration on every case) *)
+Theorem C10_one_runner_view : forall E m text c tr name argv xs,
+  m <> ROBSD_REGRESS -> config_parse E (tables_of m) text = Accepted c ->
+  let c' := after_parse (tables_of m) c in
+  benv E m c' tr TRACE <> None ->
+  (SchedDefs.resolve E (tables_of m) text tr name = Some argv <-> ArgvDefs.resolve true (view_of E m c' tr xs) tr name = RArgv argv).
+Proof. exact bridge_view. Qed.
+Print Assumptions C10_one_runner_view.
+
+(* every listed name is resolvable by the step runner of C06 *)
+Theorem C10_listed_resolvable_one_runner : forall E m text c c1 steps i s,
+  config_parse E (tables_of m) text = Accepted c ->
+  get_steps E (tables_of m) (after_parse (tables_of m) c) false = (c1, Some steps) ->
+  nth_error steps i = Some s ->
+  let c' := after_parse (tables_of m) c in
+  (schedule_ok (benv E m c' false) (bsteps E m c' false) \/ m <> ROBSD_REGRESS) ->
+  exists j s', (j <= i)%nat /\ nth_error steps j = Some s' /\ ss_name s' = ss_name s /\
+    (forall k x, (k < j)%nat -> nth_error steps k = Some x -> ss_name x <> ss_name s) /\
+    resolve_env true (benv E m c' false) (bsteps E m c' false) (ss_name s) = RArgv (ss_cmd s').
+Proof. exact listed_resolves_one_runner. Qed.
+Print Assumptions C10_listed_resolvable_one_runner.
+
+(* outside the guard: two tests named x${rdomain} / y${rdomain} are listed and resolve, each with its own
+   number; no state-free lookup function reproduces that *)
+Theorem C10_one_runner_rdomain_refuted :
+  SchedDefs.resolve sched_wit_env TRg rd_wit_text false (bs "y${rdomain}")
+    = Some [bs "sh"; bs "-eu"; bs "/x/robsd-regress-exec.sh"; bs "y12"]
+  /\ SchedDefs.resolve sched_wit_env TRg rd_wit_text false (bs "x${rdomain}")
+    = Some [bs "sh"; bs "-eu"; bs "/x/robsd-regress-exec.sh"; bs "x11"]
+  /\ exists c, config_parse sched_wit_env TRg rd_wit_text = Accepted c
+     /\ resolve_env true (benv sched_wit_env ROBSD_REGRESS c false) (bsteps sched_wit_env ROBSD_REGRESS c false) (bs "y${rdomain}")
+        = RNone [DInterp (EUnknown (bs "rdomain")); DNotFound].
+Proof. exact bridge_rdomain_refuted. Qed.
+Print Assumptions C10_one_runner_rdomain_refuted.
 
 (* and the command of every step made from a script (all fixed steps, all regress tests, canvas' end) starts with sh *)
 Theorem C10_listed_command_nonempty_partial : forall E m c script name c1 l,
-  interp_args E (tables_of m) c (script_argv (tables_of m) script name) = (c1, Some l) -> exists l', l = sh_lit :: l'.
+  SchedDefs.interp_args E (tables_of m) c (script_argv (tables_of m) script name) = (c1, Some l) -> exists l', l = sh_lit :: l'.
 Proof. exact script_cmd_nonempty_gen. Qed.
 Print Assumptions C10_listed_command_nonempty_partial.
 
@@ -167,7 +327,7 @@ Theorem C10_listed_command_nonempty_refuted :
   list_cmd sched_wit_env (tables_of CANVAS) sched_wit_canvas_text None = L_ok (bs "1 s
 2 end
 ")
-  /\ resolve sched_wit_env (tables_of CANVAS) sched_wit_canvas_text false (bs "s") = Some [].
+  /\ SchedDefs.resolve sched_wit_env (tables_of CANVAS) sched_wit_canvas_text false (bs "s") = Some [].
 Proof. exact canvas_empty_command. Qed.
 Print Assumptions C10_listed_command_nonempty_refuted.
 
@@ -179,6 +339,43 @@ Print Assumptions C10_listed_command_nonempty_refuted.
 Theorem C10_canvas_end_appended_in_place : canvas_end_reserved = true.
 Proof. exact eq_refl. Qed.
 Print Assumptions C10_canvas_end_appended_in_place.
+
+(* ------------------------------------------------------------------ the oracles of the harness *)
+(* SchedSpec.spec_full_ok / spec_offset_ok are applied by the harness to what robsd-step -L printed.  They
+   accept every listing of the MODEL: [lines_of i steps] are the (number, name, flag) triples of the bytes
+   list_cmd yields ([list_lines_render]); [regress_cfgd]/[regress_gp]/[canvas_cfgd] are what the harness tells
+   the oracle about the entries it wrote (every regress entry with "its test has no no-parallel option", the
+   global switch; every canvas step with its parallel option), in configuration order. *)
+Theorem C10_listing_bytes : forall i steps, list_lines i steps = flat_map render_line (lines_of i steps).
+Proof. exact list_lines_render. Qed.
+Print Assumptions C10_listing_bytes.
+
+Theorem C10_oracle_offset_accepts_model : forall (k : nat) steps, (1 <= k)%nat ->
+  spec_offset_ok k (lines_of 1 steps) (lines_of k (skipn (k - 1) steps)) = true.
+Proof. exact spec_offset_accepts_model. Qed.
+Print Assumptions C10_oracle_offset_accepts_model.
+
+Theorem C10_oracle_accepts_model_fixed : forall E m text c c1 steps gp cfgd,
+  m = ROBSD \/ m = ROBSD_CROSS \/ m = ROBSD_PORTS ->
+  config_parse E (tables_of m) text = Accepted c ->
+  get_steps E (tables_of m) (after_parse (tables_of m) c) false = (c1, Some steps) ->
+  spec_full_ok m gp cfgd (lines_of 1 steps) = true.
+Proof. exact spec_full_accepts_static. Qed.
+Print Assumptions C10_oracle_accepts_model_fixed.
+
+Theorem C10_oracle_accepts_model_regress : forall E c c1 steps es,
+  run_entries E TRg (cfg_init TRg) es = Some c ->
+  get_steps E TRg (after_parse TRg c) false = (c1, Some steps) ->
+  spec_full_ok ROBSD_REGRESS (regress_gp E es) (regress_cfgd es) (lines_of 1 steps) = true.
+Proof. exact spec_full_accepts_regress. Qed.
+Print Assumptions C10_oracle_accepts_model_regress.
+
+Theorem C10_oracle_accepts_model_canvas : forall E c c1 steps es gp,
+  run_entries E (tables_of CANVAS) (cfg_init (tables_of CANVAS)) es = Some c ->
+  get_steps E (tables_of CANVAS) (after_parse (tables_of CANVAS) c) false = (c1, Some steps) ->
+  spec_full_ok CANVAS gp (canvas_cfgd es) (lines_of 1 steps) = true.
+Proof. exact spec_full_accepts_canvas. Qed.
+Print Assumptions C10_oracle_accepts_model_canvas.
 
 (* ------------------------------------------------------------------ non-vacuity *)
 Example C10_nonvacuous :
@@ -203,6 +400,6 @@ Example C10_nonvacuous :
 15 end
 ")
   /\ list_cmd sched_wit_env TRg sched_wit_text (Some (bs "16")) = L_offset_too_large
-  /\ resolve sched_wit_env TRg sched_wit_text false (bs "b")
+  /\ SchedDefs.resolve sched_wit_env TRg sched_wit_text false (bs "b")
      = Some [bs "sh"; bs "-eu"; bs "/x/robsd-regress-exec.sh"; bs "b"].
 Proof. exact sched_nonvacuous. Qed.
